@@ -54,7 +54,8 @@ function getPathAndLine (sourceMap, filename, line, column) {
   try {
     if (sourceMap) {
       const filePath = getFilePathFromName(filename)
-      const { originalSource, originalLine, originalColumn } = sourceMap.findEntry(line - 1, column - 1)
+      // a lookup by line only (column omitted or 0) asks for the beginning of that line, not for the end of the previous one
+      const { originalSource, originalLine, originalColumn } = sourceMap.findEntry(line - 1, Math.max(column - 1, 0))
       return {
         path: path.join(filePath, originalSource),
         line: originalLine + 1,
